@@ -71,6 +71,7 @@ IndexLen == RQ(Ev.op = "indexlen" /\ Ev.n = Len(R) /\ ni = Len(R)) /\ UNCHANGED 
 ReadInside(rd, e) == rd[1] >= e.lo /\ rd[1] + rd[2] <= e.hi
 Get == RQ(Ev.op = "get" /\ Ev.k \in 1..Len(R) /\ Ev.off >= 0
           /\ Ev.ranges = GetAbs(R[Ev.k].len, Ev.off, Ev.len)
+          /\ Ev.kind = R[Ev.k].kind /\ Ev.type = R[Ev.k].type
           /\ \A j \in 1..Len(Ev.reads) : ReadInside(Ev.reads[j], rext[Ev.k]))
        /\ UNCHANGED <<ny, ni>>
 
